@@ -61,7 +61,7 @@ class DispatchWalker(lib_accessor.AccWalker):
         return 'other'
 
 
-def check_dispatch(ctx, fb, rd):
+def check_dispatch(ctx, fb, rd, rcls=None):
     enum = fb.enums.get(lib_accessor.STATE_ENUM)
     fs = [f for f in fb.fn.values() if f.qn == 'yaclib::detail::Core::CallResolveState' and f.cfg is not None]
     if not fs:
@@ -102,6 +102,68 @@ def check_dispatch(ctx, fb, rd):
                       ','.join(sorted(lib_accessor.ALL - inv - pas))
         if bad:
             ctx.report(rd, key, f.where, bad, 'instantiation: ' + f.full[:300])
+            continue
+        # ---- the invoking state is the one the callback was written for (decided from the callback's own signature,
+        # not from the library's classification): a callback whose parameter is the value type runs on Value, one taking
+        # E on Error, one taking exception_ptr on Exception
+        if rcls is None:
+            continue
+        want = callback_class(fb, f)
+        if want is None:
+            continue
+        key = 'R-DISPATCH.class Core::CallResolveState'
+        ctx.instance(rcls, key + ' :: ' + f.cls[:150], dict(callback_takes=want[1][:80], must_run_on=want[0],
+                                                             runs_on=''.join(sorted(inv))))
+        if inv != {want[0]}:
+            names = dict(V='Value', R='Error', X='Exception')
+            ctx.report(rcls, key, f.where, 'a callback that takes %s (%s) is invoked on state %s and skipped on %s: the '
+                       'run-time dispatch classifies it differently from its signature (and from the deduction of the '
+                       'step\'s type)' % (want[1][:80], dict(V='the value', R='the error', X='the exception')[want[0]],
+                                         '/'.join(names.get(x, x) for x in sorted(inv)), names[want[0]]),
+                       'instantiation: ' + f.full[:300])
+
+
+def _norm(t):
+    t = t.strip()
+    for _ in range(3):
+        for suf in (' &&', ' &', '&&', '&'):
+            if t.endswith(suf):
+                t = t[:-len(suf)].strip()
+        if t.startswith('const '):
+            t = t[6:].strip()
+        if t.endswith(' const'):
+            t = t[:-6].strip()
+    return t
+
+
+def callback_class(fb, f):
+    """('V'|'R'|'X', parameter type) from the signature of the callback stored in this Core instantiation, or None
+    when it does not name one of the three kinds exactly (conversions, generic lambdas, Result callbacks)"""
+    cta = f.cta or []
+    if len(cta) < 4:
+        return None
+    arg, err, func = _norm(cta[1]), _norm(cta[2]), _norm(cta[3])
+    if not func.startswith('(lambda at '):
+        return None
+    cls = '(lambda ' + func[len('(lambda at '):]
+    sigs = set()
+    for g in fb.lambda_ops(cls):
+        sigs.add(tuple(_norm(g.locals[p]['t']) for p in g.params))
+    if len(sigs) != 1:
+        return None
+    sig = next(iter(sigs))
+    if len(sig) == 0:
+        return ('V', 'nothing')
+    if len(sig) != 1:
+        return None
+    p = sig[0]
+    if p == arg or (arg == 'void' and p == 'yaclib::Unit'):
+        return ('V', p)
+    if p == err:
+        return ('R', p)
+    if p in ('std::exception_ptr', 'std::__exception_ptr::exception_ptr'):
+        return ('X', p)
+    return None
 
 
 def check_invoke_once(ctx, fb, rule):
@@ -423,13 +485,16 @@ def run(ctx):
                     'accessors take the alternative of their kind', minimum=6)
     rinv = ctx.rule('R-INVOKE', 'a step that runs its callback invokes it exactly once and completes with what it '
                     'returned (Unit for a void callback)', minimum=40)
+    rcls = ctx.rule('R-DISPATCH.class', 'the state on which a step invokes its callback is the one the callback\'s own '
+                    'signature names (value type -> Value, E -> Error, exception_ptr -> Exception), also when the error '
+                    'type converts to the value type', minimum=60)
     from rules import lib_core
     for cfg, fb in sorted(fbs.items()):
         ctx.guard(lambda: check_result(ctx, fb, rres))
         ctx.guard(lambda: lib_core.check_move_sites(ctx, fb, rmv, lambda f: f.file.endswith('algo/detail/core.hpp')))
         fns = [f for f in lib_accessor.functions_with_accessors(fb, [CORE])]
         ctx.guard(lambda: lib_accessor.check(ctx, fb, ra, fns))
-        ctx.guard(lambda: check_dispatch(ctx, fb, rd))
+        ctx.guard(lambda: check_dispatch(ctx, fb, rd, rcls))
         ctx.guard(lambda: check_invoke_once(ctx, fb, rinv))
         ctx.guard(lambda: check_entries(ctx, fb, re_))
         ctx.guard(lambda: check_try(ctx, fb, rt))
